@@ -8,14 +8,18 @@ package app
 
 import (
 	"fmt"
+	"io"
 	"net"
 	"net/http"
 	"net/http/httptest"
+	"os"
+	"path/filepath"
 	"sort"
 	"strconv"
 	"strings"
 	"sync"
 	"sync/atomic"
+	"syscall"
 	"testing"
 	"time"
 
@@ -467,6 +471,42 @@ type vfLimOut struct {
 	ok     bool
 }
 
+// vfSlowLogPipe creates a named pipe and a reader that accepts one writer at a time after a short pause.
+func vfSlowLogPipe(t *testing.T, k int) (path string, stop func()) {
+	path = filepath.Join(t.TempDir(), fmt.Sprintf("reqlog%d.fifo", k))
+	if err := syscall.Mkfifo(path, 0600); err != nil {
+		return "", func() {}
+	}
+	var stopped int32
+	done := make(chan struct{})
+	go func() {
+		defer close(done)
+		for atomic.LoadInt32(&stopped) == 0 {
+			time.Sleep(300 * time.Microsecond)
+			f, err := os.OpenFile(path, os.O_RDONLY, 0) // blocks until a writer opens
+			if err != nil {
+				return
+			}
+			_, _ = io.Copy(io.Discard, f)
+			f.Close()
+		}
+	}()
+	return path, func() {
+		atomic.StoreInt32(&stopped, 1)
+		// release a reader that waits for a writer
+		for i := 0; i < 200; i++ {
+			if f, err := os.OpenFile(path, os.O_WRONLY|syscall.O_NONBLOCK, 0); err == nil {
+				f.Close()
+			}
+			select {
+			case <-done:
+				return
+			case <-time.After(time.Millisecond):
+			}
+		}
+	}
+}
+
 // porcupine: whole-state sequential model, short histories that may cross interval boundaries
 func vfC20Porcupine(t *testing.T, r *rep.R) {
 	nHist := r.Pick(300, 12000)
@@ -478,7 +518,13 @@ func vfC20Porcupine(t *testing.T, r *rep.R) {
 		if hi%2 == 0 {
 			interval = time.Hour // no resets: quota exactness under concurrency
 		}
-		lim, _ := NewIPRequestLimiter(max, interval, start, "", "")
+		logFile := ""
+		stopLog := func() {}
+		if hi%4 == 1 {
+			// a slow log device (named pipe whose reader takes its time): the counters are dumped to it at every interval reset
+			logFile, stopLog = vfSlowLogPipe(t, hi)
+		}
+		lim, _ := NewIPRequestLimiter(max, interval, start, "", logFile)
 		G := 2 + rng.Intn(4)
 		per := 2 + rng.Intn(3)
 		type st struct {
@@ -594,6 +640,7 @@ func vfC20Porcupine(t *testing.T, r *rep.R) {
 			}
 			r.Sample(map[string]any{"kind": "porcupine-history", "result": "linearizable", "history": d})
 		}
+		stopLog()
 	}
 }
 
